@@ -459,13 +459,13 @@ def argument_checks(ctx):
 
 def run(ctx, model_ok=True):
     argument_checks(ctx)
-    run_sites_time(ctx, ctx.n(150, 3000), model_ok)
-    run_unconstrained(ctx, ctx.n(40, 400), model_ok)
-    run_sampledata(ctx, ctx.n(15, 200), model_ok)
+    run_sites_time(ctx, ctx.n(300, 1200), model_ok)
+    run_unconstrained(ctx, ctx.n(60, 200), model_ok)
+    run_sampledata(ctx, ctx.n(20, 80), model_ok)
 
 
 def search(ctx):
-    run_sites_time(ctx, ctx.n(1500, 6000), False)
+    run_sites_time(ctx, ctx.n(500, 3000), False)
 
 
 def replay(ctx, data):
